@@ -56,6 +56,12 @@ class Syn:
                     continue  # a module file reached through two `mod` declarations
                 seen.add(key)
                 self.fns.append(f)
+        # pure renames of local bindings are undone before any rule looks (see alphanorm.py)
+        import os as _os
+        if not _os.environ.get("VERIF_NO_ALPHANORM"):
+            import alphanorm
+            here = _os.path.dirname(_os.path.dirname(_os.path.dirname(_os.path.abspath(__file__))))
+            self.alpha_renamed = alphanorm.normalise(self.fns, alphanorm.load_table(here))
         self.adts = [dict(a, crate=c) for c, v in data.items() for a in v["adts"]]
         self.statics = [dict(a, crate=c) for c, v in data.items() for a in v["statics"]]
         self.impls = [dict(a, crate=c) for c, v in data.items() for a in v["impls"]]
